@@ -549,6 +549,17 @@ fn determ() -> i32 {
                             m.bulk_put(&uniq).unwrap();
                             if step % 62 == 5 { let dk: Vec<&str> = uniq.iter().take(3).map(|p_| p_.0).collect(); let _ = m.bulk_delete(&dk).unwrap(); }
                             m.put_from_iter(vec![(abyssiniandb::DbString::from("pfi-a"), vec![1u8; 20]), (abyssiniandb::DbString::from("pfi-b"), vec![2u8; 3])].into_iter()).unwrap();
+                            if step == 36 || step == 191 {
+                                // long batches (more than 32 pairs), distinct keys, values of several size classes
+                                let lk: Vec<String> = (0..45).map(|j| format!("long{step}-{j}")).collect();
+                                let lv: Vec<Vec<u8>> = (0..45).map(|j| vec![j as u8; 3 + (j * 17) % 120]).collect();
+                                let lp: Vec<(&str, &[u8])> = lk.iter().zip(lv.iter()).map(|(k, v)| (k.as_str(), &v[..])).collect();
+                                m.bulk_put(&lp).unwrap();
+                                let dk: Vec<&str> = lk.iter().step_by(2).map(|k| k.as_str()).collect();
+                                let _ = m.bulk_delete(&dk).unwrap();
+                                let sp: Vec<(&str, String)> = lk.iter().skip(1).step_by(2).map(|k| (k.as_str(), "replaced by bulk_put_string".to_string())).collect();
+                                m.bulk_put_string(&sp).unwrap();
+                            }
                         }
                         if run == 1 && step % 7 == 0 {
                             let _ = m.get(&k).unwrap(); let _ = m.len().unwrap(); let _: Vec<_> = m.iter().collect();
@@ -866,6 +877,22 @@ fn names() -> i32 {
                 m.put_string(&format!("k{i}-{session}"), "x").unwrap();
             }
         }
+        // the same directory under other spellings of its path is the same database
+        let abs = std::fs::canonicalize(&dir).unwrap();
+        let parent = abs.parent().unwrap().to_path_buf(); let base = abs.file_name().unwrap().to_string_lossy().to_string();
+        let pname = parent.file_name().map(|x| x.to_string_lossy().to_string());
+        let old_cwd = std::env::current_dir().unwrap();
+        std::env::set_current_dir(&parent).unwrap();
+        let mut spellings: Vec<String> = vec![abs.to_string_lossy().to_string(), base.clone(), format!("./{base}"), format!("{base}/"), format!("{base}/../{base}"), format!("./././{base}")];
+        if let Some(pn) = pname { spellings.push(format!("../{pn}/{base}")); spellings.push(format!("./../{pn}/./{base}")); }
+        let mut err = None;
+        for sp in &spellings {
+            let db = abyssiniandb::open_file(sp).unwrap();
+            let mut m = db.db_map_string_with_params("events.2023", params.clone()).unwrap();
+            if m.len().unwrap() != 6 || m.get_string("own-2").unwrap() != Some("events.2023/2".to_string()) { err = Some(format!("database opened as {sp:?} is not the one written as {:?} (map has {} entries)", abs, m.len().unwrap())); break; }
+        }
+        std::env::set_current_dir(&old_cwd).unwrap();
+        if let Some(e) = err { return Err(e); }
         Ok(())
     }));
     let _ = std::fs::remove_dir_all(&dir);
